@@ -106,3 +106,49 @@ func VH_C14_render_leaves_path_Q() {
 		vAssert("C14.render.twice_same_image", eq)
 	}
 }
+
+// C14-H8: gradients are painted in canvas coordinates: a pixel whose centre lies at canvas point
+// (X,Y) inside the filled region gets the gradient's colour at (X,Y), for every resolution and
+// with the vertical axis pointing up.  Linear gradients (horizontal, vertical, diagonal) over a
+// 10x10 mm square at 1, 2 and 4 pixels per mm; pixels well inside the square; colours within 3/255
+// (the gradient's own 8-bit truncation and half a pixel).  Concrete shapes, observed on the image.
+func VH_C14_gradient_pixels() {
+	res := []float64{1, 2, 4}[vChoose(0, 2)]
+	dirs := [][2]canvas.Point{{{X: 0, Y: 0}, {X: 10, Y: 0}}, {{X: 0, Y: 0}, {X: 0, Y: 10}}, {{X: 0, Y: 0}, {X: 10, Y: 10}}, {{X: 2, Y: 8}, {X: 8, Y: 3}}}
+	d := dirs[vChoose(0, len(dirs)-1)]
+	g := canvas.NewLinearGradient(d[0], d[1])
+	g.Add(0, canvas.Red)
+	g.Add(1, canvas.Blue)
+	stroke := vChoose(0, 1) == 1
+	r := New(10, 10, canvas.DPMM(res), canvas.LinearColorSpace{})
+	style := canvas.DefaultStyle
+	p := canvas.Rectangle(10, 10)
+	if stroke {
+		// a thick stroke along the horizontal mid line covers the whole square
+		style.Fill = canvas.Paint{}
+		style.Stroke = canvas.Paint{Gradient: g}
+		style.StrokeWidth = 10
+		p = &canvas.Path{}
+		p.MoveTo(0, 5)
+		p.LineTo(10, 5)
+	} else {
+		style.Fill = canvas.Paint{Gradient: g}
+	}
+	r.RenderPath(p, style, canvas.Identity)
+	img := r.Image.(*image.RGBA)
+	n := int(10 * res)
+	good := true
+	for _, fx := range []float64{0.15, 0.5, 0.85} {
+		for _, fy := range []float64{0.2, 0.5, 0.8} {
+			px, py := int(fx*float64(n)), int(fy*float64(n))
+			// centre of pixel (px,py) of the image in canvas coordinates (y up)
+			X := (float64(px) + 0.5) / res
+			Y := (float64(n-1-py) + 0.5) / res
+			want := g.At(X, Y)
+			got := img.RGBAAt(px, py)
+			near := func(a, b uint8) bool { return int(a)-int(b) <= 3 && int(b)-int(a) <= 3 }
+			good = good && near(got.R, want.R) && near(got.G, want.G) && near(got.B, want.B) && got.A == 255
+		}
+	}
+	vAssert("C14.gradient.pixels_get_the_colour_at_their_canvas_point", good)
+}
